@@ -27,6 +27,15 @@ CLAIMS = {
          "random multi-cuts and malformed/never-completed length fields on ws messages, ws continuation frames, HTTP chunks and chunks split over TCP writes; actual read sizes from the tr.read hook; "
          "TLC compares accepted packets, responses and host bytes with the uncut run (FramingTrace).", "DESIGN.md §4 C08",
          "TLC design check of framing; segmentations replayed on the real gateway; TLC trace validation"),
+ "C14": ("Ntlm.tla (sessions, fresh challenges, proof of password, replay, garbage) model-checked for all histories of <=5 calls over 2 sessions; one script per edge of that state graph plus random histories "
+         "executed against the real ntlm.NTLMAuth and through gRPC against the real rdpgw-auth, with genuine NTLMv2 client messages; TLC tracks the pending challenge per session and judges every call.", "DESIGN.md §4 C14",
+         "TLC design check; state-graph edge cover replayed on the real verifier; TLC trace validation"),
+ "C18": ("Config.tla refusal table over the lattice of 1440 configurations; the real binary started under each enumerated configuration (file / environment / both) and observed as exit vs listening; "
+         "keys of length 0/1/31/32: what one instance mints is presented to a second instance of the same configuration; TLC judges with Config!Refuse and KeyKept.", "DESIGN.md §4 C18",
+         "TLC-enumerated configurations started on the real binary; TLC trace validation"),
+ "C19": ("RdpFile.tla transcribes the reader/writer grammar; round trip and rejection model-checked; the real reader run on every text over the alphabet up to a length and TLC compares with RdpFile!Parse; "
+         "real builder with every setting non-default, template handling and gateway-controlled settings through the real download handler.", "DESIGN.md §4 C19",
+         "TLA+ transcription of the parser; exhaustive short texts through the real parser; TLC trace validation"),
  "C15": ("Tokens!TokenInfoStatus model-checked over the attribute product (MC_UserTok); minted tokens, every single-character mutation of the five JWE segments, forged tokens from the harness's own JWE writer "
          "(other keys/algs/issuers, expired, plain JWS, cross-mode) and random strings sent to the real /tokeninfo handler and security.UserInfo in both key modes; TLC judges each request.", "DESIGN.md §4 C15",
          "TLC design check; token universe presented to the real handler; TLC trace validation"),
